@@ -12,11 +12,14 @@ all paths, all weight lists, all oracles for the third-party `url.Parse` / jsoni
 * `C13_rejected_or_skipped`  a malformed input is answered by an error, or skipped with continue_on_error
 * `C13_prefix_preserved`     entries before the malformed part are delivered exactly as without it
 * `C13_terminates`           the decoding loops stop (measure: unread bytes), the GCD loop stops, an empty pass is not repeated
+                             (grpc/json, the four http decoders, `MultiPassReader` under the generic JSON provider)
 * `…_counterexample`         the statement for `fixed := false` is refuted by the witness of the defect
 * `C13_unrepaired_*`         the same witnesses, as computed facts about the tree as found
 -/
 import Pandora.Proofs.C13Ammo
 import Pandora.Proofs.C13Funcs
+import Pandora.Proofs.C13Multi
+import Pandora.Bridge.C13
 
 namespace Pandora.Props.C13
 open Pandora.Model.C13 Pandora.Proofs.C13
@@ -494,6 +497,175 @@ theorem C13_terminates_grpcjson_pass (limit passes passNum ammoNum : Nat) (scanE
           simp at hz
           omega
 
+/-! ## reading a source more than once -/
+
+/-- a `sleep(…)` that is not the first item of the list but still follows no request - the items before it are repeated
+zero (or a negative number of) times - is rejected like a leading one -/
+theorem C13_rejected_sleep_without_request (known : Bytes → Bool) (pre : List Bytes) (sh : Bytes) (rest : List Bytes)
+    (cnt sl : Int) (hpre : expand true known pre = .ok []) (h : parseShootName sh = .ok ⟨sleepName, cnt, sl⟩) :
+    expand true known (pre ++ sh :: rest) = .err "leading-sleep" := by
+  unfold expand at hpre ⊢
+  rw [expandGo_append true known pre (sh :: rest) [] [] hpre]
+  unfold expandGo
+  simp [h, addSleep]
+
+/-- the http decoders (uripost, raw, uri, jsonline `Scan`) at the end of the file: the file is read again only when it
+has given an entry, and only while the pass limit allows -/
+theorem C13_terminates_http_pass (passes passNum ammoNum : Nat) (h : httpPassEnd passes passNum ammoNum = .again) :
+    0 < ammoNum ∧ (passes = 0 ∨ passNum < passes) := httpPassEnd_again passes passNum ammoNum h
+
+/-- the http provider over any file (`one` = what a single pass over it does, whatever that is), with a limit or a pass
+limit: the run ends - with the limit reached, the passes done, the file's error, or "no ammo" -/
+theorem C13_terminates_http_passes (one : Run) (passes limit : Nat) (hone : one.end_ ≠ .fuel)
+    (h : limit ≠ 0 ∨ passes ≠ 0) : (multiRunAll one passes limit).end_ ≠ .fuel := by
+  unfold multiRunAll
+  by_cases hl : limit ≠ 0
+  · rw [if_pos hl]
+    exact multiRun_no_fuel_limit one passes limit hone hl _ 0 0 (by simp) (by omega)
+  · have hl0 : limit = 0 := by omega
+    have hp : passes ≠ 0 := by rcases h with h | h; exact absurd hl0 h; exact h
+    rw [if_neg hl]
+    exact multiRun_no_fuel_passes one passes limit hone hp _ 0 0 (by omega)
+
+/-- a file without a single entry (empty, blank lines, header lines only) is never read twice: "no ammo in file",
+whatever the limit, also without a pass limit -/
+theorem C13_rejected_http_no_ammo (one : Run) (limit : Nat) (he : one.entries = []) (hok : one.end_ = .ok) :
+    multiRunAll one 0 limit = ⟨[], .err "noammo", []⟩ := by
+  unfold multiRunAll
+  have : ¬ (limit ≠ 0 ∧ 0 + one.entries.length ≥ limit) := by rw [he]; simp
+  rw [multiRun]
+  simp only [this, if_false, hok, ne_eq, not_true_eq_false, if_false]
+  simp [httpPassEnd, he]
+
+/-- `MultiPassReader.Read` keeps its state well-formed -/
+theorem C13_multipass_wf (fixed : Bool) (data : Bytes) (passes : Nat) (s : MPR) (h : MPR.WF data s) :
+    MPR.WF data MPR.init ∧ MPR.WF data (mprReadByte fixed data passes s).2 :=
+  ⟨MPR.init_WF data, mprReadByte_WF fixed data passes s h⟩
+
+/-- `MultiPassReader` under jsoniter's `loadMore` loop (`for { n, err := Read(buf); if n == 0 { if err != nil { return } } else { return } }`):
+over the repaired reader, from every reachable state, for every source and pass limit, the loop is left after at most
+two `Read` calls - a `(0, nil)` answer is always followed by data -/
+theorem C13_terminates_multipass (data : Bytes) (passes : Nat) (s : MPR) (h : MPR.WF data s) (k : Nat) :
+    (loadByte true data passes (k + 2) s).1 ≠ .again := loadByte_fixed data passes s h k
+
+/-- the generic JSON provider over a source without ammo - empty, or nothing but white space - ends well at once,
+whatever `passes` and `limit` (before 9d5241f it read the source again for ever with `passes: 0`) -/
+theorem C13_rejected_genjson_no_ammo (data : Bytes) (hws : ∀ b ∈ data, isJsonWs b = true) (passes limit : Nat) :
+    genjsonRun true data passes limit = ⟨[], "ok"⟩ := by
+  unfold genjsonRun
+  simp only
+  rw [show (if limit ≠ 0 then limit else data.length * passes) + 2 = ((if limit ≠ 0 then limit else data.length * passes) + 1) + 1 by omega]
+  unfold genjsonLoop
+  have hlim : ¬ (limit ≠ 0 ∧ MPR.init.ammoNum ≥ limit) := by simp [MPR.init]
+  rw [if_neg hlim]
+  have hs := skipWs_fixed_ws data passes hws data.length MPR.init (by simp [MPR.init]) (by simp [MPR.init]) (data.length + 3)
+  have hdec : (decodeOne true data passes MPR.init).1 = .eof := by
+    unfold decodeOne
+    rw [show 2 * data.length + 4 = data.length + 1 + (data.length + 3) by omega]
+    cases hr : skipWs true data passes (data.length + 1 + (data.length + 3)) MPR.init with
+    | mk r s' =>
+      rw [hr] at hs
+      simp only at hs
+      subst hs
+      rfl
+  cases hd : decodeOne true data passes MPR.init with
+  | mk r s' =>
+    rw [hd] at hdec
+    simp only at hdec
+    subst hdec
+    rfl
+
+/-! ## the same statements about the definitions regenerated from the current source (`Pandora.Gen.C13Src`) -/
+
+open Pandora.Bridge.C13 in
+/-- `mp.calcIndex` as it stands in lib/mp/map.go now: for every index string (`index`, `atoiErr` = what Atoi says about it),
+length and iterator value the result is an error or an index inside `[0, length)` -/
+theorem C13_no_panic_calcIndex_source (indexStr : Bytes) (length next : Int) (rnd : Nat) (hnext : 0 ≤ next) :
+    (∃ c, Gen.C13Src.calcIndex indexStr ((atoi indexStr).getD 0) (atoi indexStr).isNone length next rnd = .err c) ∨
+    (∃ i, Gen.C13Src.calcIndex indexStr ((atoi indexStr).getD 0) (atoi indexStr).isNone length next rnd = .ok i ∧ 0 ≤ i ∧ i < length) := by
+  rw [calcIndex_bridge]
+  rcases C13_no_panic_calcIndex indexStr length next rnd hnext with ⟨c, h⟩ | ⟨i, h, h0, h1⟩
+  · exact .inl ⟨"e", eraseErr_err _ c h⟩
+  · exact .inr ⟨i, eraseErr_ok _ i h, h0, h1⟩
+
+open Pandora.Bridge.C13 in
+/-- `templater.randInt` as it stands now: all pairs of int64 bounds -/
+theorem C13_no_panic_randInt_source (f t : Int) (rnd : Nat) : (Gen.C13Src.randInt f t rnd).returns = true := by
+  rw [randInt_bridge, eraseErr_returns]
+  exact C13_no_panic_randInt f t rnd
+
+open Pandora.Bridge.C13 in
+/-- `readSized` as it stands now: its first test, before anything is allocated, refuses exactly the negative sizes, and it
+never allocates more than one chunk (which fits the memory) ahead of the data it has read -/
+theorem C13_rejected_negative_size_source (size : Int) :
+    Gen.C13Src.readSizedTestFirst = true ∧ (Gen.C13Src.readSizedRefuses size ↔ size < 0) ∧
+    0 < Gen.C13Src.readChunkSize ∧ Gen.C13Src.readChunkSize ≤ memCap := by
+  obtain ⟨h1, h2⟩ := readSized_bridge size []
+  refine ⟨h1, ?_, readChunkSize_bridge⟩
+  rw [h2]
+  constructor
+  · intro h
+    rcases Int.lt_or_le size 0 with hs | hs
+    · exact hs
+    · unfold readBody at h
+      have h' : ¬ size < 0 := by omega
+      simp only [if_true, h', if_false] at h
+      split at h <;> simp at h
+  · intro h; exact C13_rejected_negative_size size [] h
+
+open Pandora.Bridge.C13 in
+/-- the four `Scan` loops as they stand now: a file is read again only when neither the pass-limit test nor the
+no-ammo test of the source holds, and then it has given at least one entry -/
+theorem C13_terminates_http_pass_source (passes passNum ammoNum : Nat) :
+    (¬ Gen.C13Src.uripostPassLimit passes passNum → ¬ Gen.C13Src.uripostNoAmmo ammoNum → 0 < ammoNum ∧ (passes = 0 ∨ passNum < passes)) ∧
+    (¬ Gen.C13Src.rawPassLimit passes passNum → ¬ Gen.C13Src.rawNoAmmo ammoNum → 0 < ammoNum ∧ (passes = 0 ∨ passNum < passes)) ∧
+    (¬ Gen.C13Src.uriPassLimit passes passNum → ¬ Gen.C13Src.uriNoAmmo ammoNum → 0 < ammoNum ∧ (passes = 0 ∨ passNum < passes)) ∧
+    (¬ Gen.C13Src.jsonlinePassLimit passes passNum → ¬ Gen.C13Src.jsonlineNoAmmo ammoNum → 0 < ammoNum ∧ (passes = 0 ∨ passNum < passes)) := by
+  have key : ∀ (pl na : Bool), httpPassEnd passes passNum ammoNum = passEndOf pl na → pl = false → na = false →
+      0 < ammoNum ∧ (passes = 0 ∨ passNum < passes) := by
+    intro pl na h hpl hna
+    subst hpl; subst hna
+    exact httpPassEnd_again passes passNum ammoNum (by rw [h]; rfl)
+  refine ⟨?_, ?_, ?_, ?_⟩
+  · intro h1 h2
+    exact key _ _ (uripostPassEnd_bridge passes passNum ammoNum).2 (by simpa using h1) (by simpa using h2)
+  · intro h1 h2
+    exact key _ _ (rawPassEnd_bridge passes passNum ammoNum).2 (by simpa using h1) (by simpa using h2)
+  · intro h1 h2
+    exact key _ _ (uriPassEnd_bridge passes passNum ammoNum).2 (by simpa using h1) (by simpa using h2)
+  · intro h1 h2
+    obtain ⟨_, hp, hn⟩ := jsonlinePassEnd_bridge passes passNum ammoNum
+    have h1' : ¬ Gen.C13Src.uripostPassLimit passes passNum := fun h => h1 (hp.mpr h)
+    have h2' : ¬ Gen.C13Src.uripostNoAmmo ammoNum := fun h => h2 (hn.mpr h)
+    exact key _ _ (uripostPassEnd_bridge passes passNum ammoNum).2 (by simpa using h1') (by simpa using h2')
+
+namespace Ex
+/-- `r1(0)` -/
+def r1x0 : Bytes := [114, 49, 40, 48, 41]
+/-- `{"tag":"t"}\n` -/
+def jt : Bytes := [123, 34, 116, 97, 103, 34, 58, 34, 116, 34, 125, 10]
+/-- `{"tag":"a` -/
+def jtrunc : Bytes := [123, 34, 116, 97, 103, 34, 58, 34, 97]
+end Ex
+
+example : expand true knownR1 [r1x0] = .ok [] := by decide
+example : expand true knownR1 [r1x0, sleep10, r1] = .err "leading-sleep" := by decide
+/-- the tree as found guarded only against a sleep at the head of the list … and not even that: `[r1(0), sleep(10)]` -/
+example : (expand false knownR1 [r1x0, sleep10, r1]).isPanic = true := by decide
+example : httpPassEnd 0 1 2 = .again ∧ httpPassEnd 0 1 0 = .stop (.err "noammo") ∧ httpPassEnd 2 2 5 = .stop .ok := by decide
+example : (multiRunAll (uripostRun true anyUrl good1) 0 3).entries.length = 3 := by decide
+example : MPR.WF jt MPR.init := MPR.init_WF jt
+example : genjsonRun true (jt ++ jt) 0 3 = ⟨[[116], [116], [116]], "ok"⟩ := by decide
+example : genjsonRun true (jt ++ jtrunc) 1 0 = ⟨[[116]], "err"⟩ := by decide
+example : genjsonRun true [32, 10] 0 3 = ⟨[], "ok"⟩ := by decide
+
+/-- the reader as found, over an empty source with `passes: 0`: `Read` answers `(0, nil)` for ever - jsoniter's loop never ends -/
+theorem C13_unrepaired_multipass_spins (fuel : Nat) : (loadByte false [] 0 fuel MPR.init).1 = .again :=
+  loadByte_unfixed_empty fuel MPR.init rfl
+
+theorem C13_unrepaired_genjson_hangs : (genjsonRun false [] 0 3).end_ = "hang" ∧ (genjsonRun false [32, 10] 0 3).end_ = "hang" := by
+  decide
+
 /-! ## the property, component by component
 
 `C13_no_panic_statement fixed` etc. collect the universally quantified statements for the code variant `fixed`;
@@ -567,12 +739,19 @@ def C13_rejected_or_skipped_statement : Prop :=
   (∀ (indexStr : Bytes) (next : Int) (rnd : Nat), ∃ c, calcIndex true indexStr 0 next rnd = .err c) ∧
   (∀ (fileOf : Bytes → Option (List Bytes)) (inp : Bytes), cut inp 35 = none → propertyResolve true fileOf inp = .err "format") ∧
   (∀ (ws : List Int) (w : Int), w ∈ ws → w < 0 → spread true ws = .err "weight") ∧
-  (∀ n : Int, n < 0 → randStringLen true n = .err "length")
+  (∀ n : Int, n < 0 → randStringLen true n = .err "length") ∧
+  -- a sleep after items that expand to nothing; files and sources without a single entry
+  (∀ (known : Bytes → Bool) (pre : List Bytes) (sh : Bytes) (rest : List Bytes) (cnt sl : Int),
+    expand true known pre = .ok [] → parseShootName sh = .ok ⟨sleepName, cnt, sl⟩ →
+    expand true known (pre ++ sh :: rest) = .err "leading-sleep") ∧
+  (∀ (one : Run) (limit : Nat), one.entries = [] → one.end_ = .ok → multiRunAll one 0 limit = ⟨[], .err "noammo", []⟩) ∧
+  (∀ (data : Bytes), (∀ b ∈ data, isJsonWs b = true) → ∀ passes limit : Nat, genjsonRun true data passes limit = ⟨[], "ok"⟩)
 
 theorem C13_rejected_or_skipped : C13_rejected_or_skipped_statement :=
   ⟨C13_rejected_uripost, C13_rejected_raw, C13_rejected_uri, C13_rejected_negative_size, C13_rejected_oversize,
    C13_rejected_or_skipped_grpcjson, C13_rejected_leading_sleep, C13_rejected_unknown_request, C13_rejected_bad_shoot,
-   C13_rejected_empty_source, C13_rejected_property_no_hash, C13_rejected_negative_weight, C13_rejected_negative_length⟩
+   C13_rejected_empty_source, C13_rejected_property_no_hash, C13_rejected_negative_weight, C13_rejected_negative_length,
+   C13_rejected_sleep_without_request, C13_rejected_http_no_ammo, C13_rejected_genjson_no_ammo⟩
 
 /-- C13, "never alters how well-formed entries before it are delivered" (both code variants of the size-prefixed decoders) -/
 def C13_prefix_preserved_statement (fixed : Bool) : Prop :=
@@ -597,11 +776,15 @@ def C13_terminates_statement (fixed : Bool) : Prop :=
   (∀ (urlOk : Bytes → Bool) (s : Bytes), Step.decreases s (uripostStep fixed urlOk s) ∧ Step.decreases s (rawStep fixed s)) ∧
   (∀ (a b : Int) (k : Nat), gcdGo (a.toNat + b.toNat + 1 + k) a b = gcd64 a b) ∧
   (∀ (limit passes passNum ammoNum : Nat) (scanErr : Bool),
-    grpcPassEnd fixed limit passes passNum ammoNum scanErr = .again → 0 < ammoNum)
+    grpcPassEnd fixed limit passes passNum ammoNum scanErr = .again → 0 < ammoNum) ∧
+  -- the http decoders over any file, read again and again: with a limit or a pass limit the run ends
+  (∀ (one : Run) (passes limit : Nat), one.end_ ≠ .fuel → limit ≠ 0 ∨ passes ≠ 0 → (multiRunAll one passes limit).end_ ≠ .fuel) ∧
+  -- MultiPassReader under jsoniter's loadMore loop: never more than two Read calls
+  (∀ (data : Bytes) (passes : Nat) (s : MPR), MPR.WF data s → ∀ k : Nat, (loadByte fixed data passes (k + 2) s).1 ≠ .again)
 
 theorem C13_terminates : C13_terminates_statement true :=
   ⟨C13_terminates_uripost true, C13_terminates_raw true, C13_terminates_step true, C13_terminates_gcd,
-   C13_terminates_grpcjson_pass⟩
+   C13_terminates_grpcjson_pass, C13_terminates_http_passes, C13_terminates_multipass⟩
 
 /-! ## the tree as found: each repaired statement is refuted for the variant `fixed := false` -/
 
@@ -677,7 +860,12 @@ theorem C13_no_panic_counterexample : ¬ C13_no_panic_statement false :=
 /-- the tree as found: a pass over an empty grpc/json file with `passes: 0` is repeated without having delivered anything -/
 theorem C13_terminates_counterexample : ¬ C13_terminates_statement false := by
   intro h
-  have := h.2.2.2.2 0 0 1 0 false (by decide)
+  have := h.2.2.2.2.1 0 0 1 0 false (by decide)
   omega
+
+/-- … and so does `MultiPassReader` as found, over an empty source -/
+theorem C13_terminates_multipass_counterexample :
+    ¬ ∀ (data : Bytes) (passes : Nat) (s : MPR), MPR.WF data s → ∀ k : Nat, (loadByte false data passes (k + 2) s).1 ≠ .again :=
+  fun h => h [] 0 MPR.init (MPR.init_WF []) 0 (C13_unrepaired_multipass_spins 2)
 
 end Pandora.Props.C13
